@@ -26,7 +26,9 @@ RULE = (
     "container rebuilt by replaying the shortest history; random: histories "
     "of <=40 ops over 4 keys with nested containers as values. A case is one "
     "(state, op) transition / one random history step; distinct = distinct "
-    "(class, pre-state, op) triples; non-trivial = the op changed the list, "
+    "(class, pre-state, op) triples; plus histories over up to three live "
+    "containers built from one another (constructor, copy(), extend / insert "
+    "with a container as the source), all compared after every step; non-trivial = the op changed the list, "
     "raised, or returned a value."
 )
 CLASSES = ("OrderedMultiDict", "PVLModule", "PVLGroup", "PVLObject")
@@ -64,7 +66,7 @@ def op_universe():
     ops.append(("insert2", "0", ("a", 1)))  # TypeError: index not an int
     for name in ("insert_before", "insert_after"):
         for k in K:
-            for inst in (0, 1):
+            for inst in (0, 1, -1):
                 ops.append((name, k, ("b", 1), inst))
                 ops.append((name, k, [("a", 2), ("b", 2)], inst))
     for k in K:
@@ -264,7 +266,7 @@ def random_histories(rec, hb, rng, classes, n_hist, pvl):
         if r < 0.46:
             name = rng.choice(("insert_before", "insert_after"))
             arg = pair() if rng.random() < 0.6 else [pair(), pair(), pair()]
-            return (name, rng.choice(K), arg, rng.choice((0, 0, 1, 2)))
+            return (name, rng.choice(K), arg, rng.choice((0, 0, 1, 2, -1, -2)))
         if r < 0.52:
             return ("extend", [pair() for _ in range(rng.randint(0, 3))], {})
         if r < 0.56:
@@ -308,6 +310,137 @@ def random_histories(rec, hb, rng, classes, n_hist, pvl):
                 break
         rec.count("random_histories")
         rec.maxi("longest_history", len(hist))
+
+
+def aliasing_histories(rec, hb, rng, classes, n_hist, pvl):
+    """Several live containers built from one another (constructor, copy(),
+    extend / insert with another container as the source).  Every container
+    has its own model; after every step *all* of them are compared, so state
+    shared between two containers (a value list, an index, a view) shows as
+    soon as one of them is changed."""
+    K = ("a", "b", "c")
+    col = pvl.collections
+
+    def pair():
+        return (rng.choice(K), rng.choice((1, 2, 3, "x", None)))
+
+    def rand_op(n):
+        r = rng.random()
+        idx = rng.randint(-n - 1, n + 1)
+        if r < 0.30:
+            return ("append",) + pair()
+        if r < 0.40:
+            return ("setitem",) + pair()
+        if r < 0.48:
+            return ("insert3", idx) + pair()
+        if r < 0.56:
+            return (rng.choice(("insert_before", "insert_after")), rng.choice(K),
+                    pair(), rng.choice((0, 1, -1)))
+        if r < 0.66:
+            return ("extend", [pair() for _ in range(rng.randint(1, 2))], {})
+        if r < 0.76:
+            return (rng.choice(("pop0", "popitem")),)
+        if r < 0.86:
+            return (rng.choice(("delitem", "pop1", "popall1", "discard")),
+                    rng.choice(K))
+        if r < 0.93:
+            return ("setdefault",) + pair()
+        if r < 0.97:
+            return ("update", [pair()], {})
+        return ("clear",)
+
+    SPAWN = ("ctor", "copy", "extend-empty", "extend-into", "insert-into",
+             "ctor-other-class", "insert-after-into")
+    for h in range(n_hist):
+        hb.beat()
+        clsname = classes[h % len(classes)]
+        cls = getattr(col, clsname)
+        live = [[cls(), Model(), clsname, cls]]
+        hist = []
+        steps = rng.randint(6, 30)
+        for s in range(steps):
+            wit = {"history": list(hist)}
+            if (len(live[0][1].items) >= 2 and rng.random() < 0.18) or \
+                    (s == 4 and len(live) == 1 and live[0][1].items):
+                # build a container from an existing one
+                src = rng.choice(live)
+                how = rng.choice(SPAWN)
+                step = ("spawn", how, live.index(src))
+                wit["op"] = step
+                try:
+                    with warnings.catch_warnings():
+                        warnings.simplefilter("ignore")
+                        if how == "ctor":
+                            new = [src[3](src[0]), Model(src[1].items), src[2], src[3]]
+                        elif how == "copy":
+                            new = [src[0].copy(), Model(src[1].items), src[2], src[3]]
+                        elif how == "ctor-other-class":
+                            on = rng.choice([c for c in CLASSES if c != src[2]])
+                            oc = getattr(col, on)
+                            new = [oc(src[0]), Model(src[1].items), on, oc]
+                        elif how == "extend-empty":
+                            n0 = src[3]()
+                            n0.extend(src[0])
+                            new = [n0, Model(src[1].items), src[2], src[3]]
+                        else:
+                            pre = [pair() for _ in range(rng.randint(1, 2))]
+                            n0 = src[3](pre)
+                            mm = Model(pre)
+                            if how == "extend-into":
+                                n0.extend(src[0])
+                                mm.extend_pairs(src[1].items)
+                            elif how == "insert-into":
+                                n0.insert(0, src[0])
+                                mm.insert(0, list(src[1].items))
+                            else:
+                                k0 = pre[0][0]
+                                n0.insert_after(k0, src[0])
+                                mm.insert(mm.key_index(k0) + 1, list(src[1].items))
+                            new = [n0, mm, src[2], src[3]]
+                except contracts.InvariantBroken as e:
+                    rec.violation("C10", src[2], "invariant-broken-by-op",
+                                  {"op": "spawn:" + how}, wit, str(e))
+                    break
+                except Exception as e:
+                    rec.violation("C10", src[2], "op-result", {"op": "spawn:" + how},
+                                  wit, f"building a container from another one "
+                                       f"({how}) raised {type(e).__name__}: {e}")
+                    break
+                rec.count(f"spawn[{how}]")
+                live.append(new)
+                if len(live) > 3:
+                    live.pop(rng.randrange(len(live) - 1))
+                hist.append(step)
+                ok = True
+            else:
+                t = rng.randrange(len(live))
+                c, m, cn, cl = live[t]
+                op = rand_op(len(m.items))
+                step = ("on", t, op)
+                wit["op"] = step
+                ok = check_step(rec, cn, cl, c, m, op, Model(m.items), K + ("zz",),
+                                (1, 2, "x", None), "aliasing", wit)
+                hist.append(step)
+            rec.case(("alias", clsname, repr(hist[-3:]), len(hist)), True,
+                     sample=wit if (h % 300 == 0 and s == steps - 1) else None)
+            rec.count("aliasing_steps")
+            # every live container against its own model
+            for t, (c, m, cn, cl) in enumerate(live):
+                try:
+                    bad = compare_views(c, m, K + ("zz",), (1, 2, "x", None), rec.c)
+                except contracts.InvariantBroken as e:
+                    bad = [("invariant", True, str(e))]
+                if bad:
+                    rec.violation(
+                        "C10", cn, "views-disagree-with-list",
+                        {"op": "other-container-changed" if step[0] == "on"
+                         and step[1] != t else step[1] if step[0] == "spawn"
+                         else step[2][0], "several_containers": True}, wit,
+                        f"container #{t} after {step!r}: {bad[:3]}")
+                    ok = False
+            if not ok:
+                break
+        rec.count("aliasing_histories")
 
 
 def repo_tests_under_invariant(rec):
@@ -360,6 +493,7 @@ def shard(i, n, tier, seed, rec, hb):
         bfs(rec, hb, clsname, getattr(col, clsname), d, cap, i, n)
     n_hist = (2400 if tier == "quick" else 200000) // n
     random_histories(rec, hb, rng, CLASSES, n_hist, pvl)
+    aliasing_histories(rec, hb, rng, CLASSES, n_hist // 3, pvl)
     rec.count("invariant_evaluations", contracts.STATE["evaluations"])
     if i == 0:
         repo_tests_under_invariant(rec)
@@ -378,6 +512,8 @@ def finish_kwargs(rec, tier):
                            "sample",
         },
         required_counters=("bfs_transitions_checked", "random_steps",
+                           "aliasing_steps", "spawn[ctor]", "spawn[copy]",
+                           "spawn[extend-empty]",
                            "invariant_evaluations", "equality_checks",
                            "repo_tests_invariant_evaluations"),
         assumptions=[
